@@ -153,8 +153,8 @@ Proof.
   unfold exec, spawn_all, poll_ready. cbn [combine seq length map run_prog fst snd].
   wsimpl. rewrite !N.eqb_refl. wsimpl. rewrite vr. cbn [app fold_left catch fst snd x_w].
   split; [|reflexivity].
-  constructor; cbn [on_w say x_w w_buf w_mod set_mod]; rewrite ?N.eqb_refl; cbn [w_mod set_mod]; rewrite ?N.eqb_refl;
-    cbn [timers nw inc bud hnd catchf ready shut set_ready]; try assumption; try reflexivity.
+  constructor; cbn [on_w say say_all x_w w_buf w_mod set_mod]; rewrite ?N.eqb_refl; cbn [w_mod set_mod]; rewrite ?N.eqb_refl;
+    cbn [timers nw inc bud hnd catchf ready shut set_ready set_hnd]; rewrite ?app_nil_r; try assumption; try reflexivity.
   intros j Hj. pose proof (va j Hj) as Hv. apply N.eqb_neq in Hj. rewrite !Hj. exact Hv.
 Qed.
 
